@@ -26,7 +26,7 @@ def nontrivial(f):
 
 
 def run(sh):
-    n = 400 if sh.tier == 'quick' else 8000
+    n = 400 if sh.tier == 'quick' else 80000
     engine_line.run_profile(sh, 'C06', 'faults', n * 3 // 4, MONITORS, nontrivial)
     engine_line.run_profile(sh, 'C06', 'general', n // 4, MONITORS, nontrivial)
 
